@@ -486,7 +486,7 @@ prop(
     ],
     # (vector-operation programs are not compared on the big-endian host: the portable backend's storage views are not
     # endian-neutral - the root cause of the open JH finding - so every program diverges at its first 64/128-bit view)
-    be_host={"quick": [(BE_TARGET, 1, "cipher,jh1"), (I686_TARGET, 1, "vecops")], "thorough": [(BE_TARGET, 2, "block,cipher,hash"), (I686_TARGET, 3, "cipher,vecops")]},
+    be_host={"quick": [(BE_TARGET, 1, "cipher,jh1,vecopsb"), (I686_TARGET, 1, "vecops,vecopsb")], "thorough": [(BE_TARGET, 2, "block,cipher,hash,vecopsb"), (I686_TARGET, 3, "cipher,vecops,vecopsb")]},
 )
 
 
@@ -847,7 +847,7 @@ def miri_native():
     return os.path.join(VERIF, "target", tag + "-native", "debug", "mirithreads")
 
 
-def miri_run(base, nw, table, seed_lo, seed_hi, rate, idx=None):
+def miri_run(base, nw, table, seed_lo, seed_hi, rate, idx=None, seq=False):
     """run the thread workload under Miri for scheduler seeds [seed_lo, seed_hi); returns (rc, output).
     Each seed is a fresh interpreter (a cold process); the seed also selects which of the `nw` workloads runs."""
     bdir, mpath, tag = miri_dirs()
@@ -862,6 +862,8 @@ def miri_run(base, nw, table, seed_lo, seed_hi, rate, idx=None):
     cmd = ["cargo", "+nightly", "miri", "run", "--offline", "--quiet", "--manifest-path", mpath, "--", "run", str(base), str(nw), table]
     if idx is not None:
         cmd.append(str(idx))
+        if seq:
+            cmd.append("seq")
     p = subprocess.run(cmd, env=env, cwd=bdir, stdout=subprocess.PIPE, stderr=subprocess.STDOUT, text=True)
     return p.returncode, p.stdout
 
@@ -880,7 +882,7 @@ def classify_miri(out):
     return "abnormal exit"
 
 
-NW = 74
+NW = 74 + 31   # 2 x 37 first-call workloads + 31 "hammer" workloads
 
 
 def be_dirs():
@@ -989,7 +991,17 @@ def run_be_layer(pid, spec_be, tier, sd, replay_dir, results, violations, known)
         tail = "\n".join(l for l in err_be.splitlines() if l.strip())[-1200:]
         what = "refill4 differs from four refills" if "refill4" in err_be else "panic" if "panicked" in err_be else "undefined behaviour" if "Undefined Behavior" in err_be else "abnormal exit"
         found.append(("%s fails:%s" % (hostname, what), "after %d of %d operations: %s" % (len(be), len(le), tail)))
+    # a program of vector operations is a chain (every step reads the registers the earlier ones wrote): only its first
+    # differing step is a finding, what follows is its consequence
+    chain_first = {}
+    for name, idx in diffs.items():
+        if name.startswith("vecops"):
+            fam0 = name.split(".")[0]
+            if fam0 not in chain_first or idx[0] < chain_first[fam0][1][0]:
+                chain_first[fam0] = (name, idx)
     for name, idx in sorted(diffs.items()):
+        if name.startswith("vecops") and chain_first[name.split(".")[0]][0] != name:
+            continue
         fam = "jh" if name.startswith("jh") else name
         found.append(("%s differs:%s" % (hostname, fam), "%d operations of kind %s give other results than on the little-endian hosts (first: line %d: LE %s / BE %s)" % (len(idx), name, idx[0], le[idx[0]].split()[3], be[idx[0]].split()[3])))
     seen = set()
@@ -1075,49 +1087,103 @@ def run_miri_mem_layer(pid, tier, sd, replay_dir, results, violations, known):
     return nseeds
 
 
+def miri_jobs(tier, sd):
+    """(workload index, Miri scheduler seed, preemption rate): every workload at least once - which calls initialise or share
+    something is what a regression changes, so coverage of the first-call kinds is enumerated, not drawn - and the workloads of
+    long single calls (bulk paths) under several seeds and rates."""
+    lo = (sd * 7919) % 100000
+    jobs = []
+    rates = ["0.1"] if tier == "quick" else ["0.01", "0.1", "0.4"]
+    reps = 1 if tier == "quick" else 3
+    for ri, rate in enumerate(rates):
+        for rep in range(reps):
+            for w in range(NW):
+                jobs.append((w, lo + (ri * reps + rep) * 1009 + w, rate))
+    long_w = [w for w in range(2 * MIRI_NOPS) if w % MIRI_NOPS >= MIRI_LONG_FROM]
+    extra = [("0.01", 1), ("0.3", 2)] if tier == "quick" else [("0.02", 1), ("0.05", 2), ("0.2", 3), ("0.3", 4), ("0.5", 5), ("0.7", 6)]
+    for rate, k in extra:
+        for w in long_w:
+            jobs.append((w, lo + 50000 + k * 1009 + w, rate))
+    # the cheap "hammer" workloads (short cipher / BLAKE calls repeated by three threads) under more schedules: a shared value
+    # that is written with atomics is no data race for the interpreter - only a schedule that mixes two writers shows it
+    cheap = [2 * MIRI_NOPS + k for k in (5, 7, 8, 10, 15, 19, 20, 21, 22, 23, 24, 26, 30)]
+    hrates = [("0.03", 11), ("0.3", 12), ("0.5", 13)] if tier == "quick" else [("0.02", 11), ("0.05", 12), ("0.2", 13), ("0.3", 14), ("0.5", 15), ("0.7", 16), ("0.9", 17), ("0.15", 18)]
+    for rate, k in hrates:
+        for w in cheap:
+            jobs.append((w, lo + 50000 + k * 1009 + w, rate))
+    jobs.sort(key=lambda j: -miri_cost_hint(j[0]))  # longest first: a short tail for the pool
+    return jobs
+
+
+MIRI_NOPS = 37
+MIRI_LONG_FROM = 31
+# measured interpreter seconds of the "hammer" workloads per operation kind (only used to order the job pool)
+HAMMER_COST = [8, 15, 8, 15, 33, 6, 8, 6, 5, 7, 4, 10, 20, 34, 10, 6, 11, 35, 34, 3, 5, 4, 4, 7, 5, 11, 8, 13, 23, 14, 7]
+
+
+def miri_cost_hint(w):
+    if w >= 2 * MIRI_NOPS:
+        return HAMMER_COST[(w - 2 * MIRI_NOPS) % 31]
+    k = w % MIRI_NOPS
+    return 30 if k >= MIRI_LONG_FROM else 12 if k in (4, 13, 17, 18) else 4
+
+
+
 def run_miri_layer(pid, tier, sd, replay_dir, results, violations, known, others):
-    """S7b: threads from a cold process; every thread switch decided by Miri's seeded scheduler."""
+    """S7b: threads from a cold process; every thread switch decided by Miri's seeded scheduler. One interpreter process
+    per (workload, scheduler seed), 16 at a time."""
     import re
+    from concurrent.futures import ThreadPoolExecutor
     native = miri_native()
     base = (sd * 1000003) & 0xFFFFFFFF
     table = subprocess.run([native, "expected", str(base), str(NW)], stdout=subprocess.PIPE, text=True).stdout.strip()
     plans = subprocess.run([native, "plan", str(base), str(NW)], stdout=subprocess.PIPE, text=True).stdout.strip().splitlines()
-    if tier == "quick":
-        batches = [(32, "0.1")]
-    else:
-        batches = [(256, "0.01"), (256, "0.1"), (256, "0.4")]
+    jobs = miri_jobs(tier, sd)
     t0 = time.time()
-    total = 0
-    for bi, (nseeds, rate) in enumerate(batches):
-        lo = (sd * 7919 + bi * 1009) % 100000
-        rc, out = miri_run(base, NW, table, lo, lo + nseeds, rate)
-        total += nseeds
-        picked = {}
-        for m in re.finditer(r"WORKLOAD (\d+) threads=(\d+) first=(\w+)", out):
+    # the first job also builds the interpreter's copy of the program
+    first = miri_run(base, NW, table, jobs[0][1], jobs[0][1] + 1, jobs[0][2], jobs[0][0])
+    with ThreadPoolExecutor(max_workers=NCPU) as ex:
+        outs = [first] + list(ex.map(lambda j: miri_run(base, NW, table, j[1], j[1] + 1, j[2], j[0]), jobs[1:]))
+    picked = {}
+    per_rate = {}
+    failed = []
+    for (w, s_, rate), (rc, out) in zip(jobs, outs):
+        m = re.search(r"WORKLOAD (\d+) threads=(\d+) first=(\w+)", out)
+        if m:
             picked[m.group(3)] = picked.get(m.group(3), 0) + 1
-        results.append(dict(base_seed=base, workloads=NW, miri_seeds=[lo, lo + nseeds], preemption_rate=rate, first_call_kinds_raced=picked, ok=(rc == 0)))
-        log("[%s] miri: scheduler seeds %d..%d rate %s: %s; first-call kinds raced: %s" % (pid, lo, lo + nseeds, rate, "ok" if rc == 0 else "FAILED", picked))
-        if rc == 0:
-            continue
-        failing = None
-        for s_ in range(lo, lo + nseeds):
-            rc1, out1 = miri_run(base, NW, table, s_, s_ + 1, rate)
-            if rc1 != 0:
-                failing = (s_, out1)
-                break
-        if failing is None:
-            raise HarnessError("Miri failure did not reproduce with a single seed:\n" + out[-2000:])
-        s_, out1 = failing
+        per_rate[rate] = per_rate.get(rate, 0) + 1
+        if rc != 0:
+            failed.append((w, s_, rate, out))
+    total = len(jobs)
+    results.append(dict(base_seed=base, workloads=NW, interpreter_runs=total, runs_per_preemption_rate=per_rate, first_call_kinds_raced=picked,
+                        failed_runs=len(failed), wall_s=round(time.time() - t0, 1)))
+    log("[%s] miri: %d interpreter runs (every one of %d workloads, rates %s): %d failed; first-call kinds raced: %s" % (pid, total, NW, per_rate, len(failed), picked))
+    seen_sig = set()
+    for (w, s_, rate, out1) in failed:
+        if "WORKLOAD" not in out1 and "error: could not compile" in out1:
+            log(out1[-3000:])
+            raise HarnessError("the thread workload does not build for the interpreter")
         what = classify_miri(out1)
-        m = re.search(r"WORKLOAD (\d+)", out1)
-        widx = int(m.group(1)) if m else -1
-        props = [pid] if what in ("data race", "deadlock", "result differs from the sequential expectation", "panic") else ["C16"]
+        needs_overlap = None
+        if what not in ("data race", "deadlock"):
+            # the same threads one after the other in the same interpreter configuration: does the failure need them to overlap?
+            rc2, out2 = miri_run(base, NW, table, s_, s_ + 1, rate, w, seq=True)
+            needs_overlap = rc2 == 0
+            if needs_overlap and what.startswith("undefined behaviour"):
+                what = "undefined behaviour only when the threads overlap"
+        props = [pid] if (what in ("data race", "deadlock") or needs_overlap) else ["C03"] if what.startswith("result differs") else ["C16"] if what != "panic" else ["C02", "C08"]
         sig = "threads from a cold process:%s" % what
-        tail = "\n".join(l for l in out1.splitlines() if l.strip())[-1500:]
-        f = dict(kind="miri", base_seed=base, workloads=NW, workload_index=widx, miri_seed=s_, preemption_rate=rate, table=table,
-                 ops=[plans[widx]] if 0 <= widx < len(plans) else [], minimised_from=1,
-                 violation=dict(properties=props, invariant="T1", signature=sig, at_op=0, detail="Miri scheduler seed %d, preemption rate %s, workload %d: %s\n%s" % (s_, rate, widx, what, tail)))
-        path = os.path.join(replay_dir, "%s-miri-%d-%d.json" % (pid, base, s_))
+        if sig in seen_sig:
+            continue
+        seen_sig.add(sig)
+        tail = "\n".join(l for l in out1.splitlines() if l.strip())
+        head = "\n".join(tail.splitlines()[:6])[:700]
+        f = dict(kind="miri", base_seed=base, workloads=NW, workload_index=w, explicit_index=True, miri_seed=s_, preemption_rate=rate, table=table,
+                 ops=[plans[w]] if 0 <= w < len(plans) else [], minimised_from=1,
+                 violation=dict(properties=props, invariant="T1", signature=sig, at_op=0,
+                                detail="Miri scheduler seed %d, preemption rate %s, workload %d: %s%s\n%s\n...\n%s" % (
+                                    s_, rate, w, what, "" if needs_overlap is None else " (the same threads one after the other: %s)" % ("pass" if needs_overlap else "fail too"), head, tail[-900:])))
+        path = os.path.join(replay_dir, "%s-miri-%d-%d-%d.json" % (pid, base, w, s_))
         json.dump(f, open(path, "w"))
         f["replay"] = path
         if pid not in props:
@@ -1128,7 +1194,6 @@ def run_miri_layer(pid, tier, sd, replay_dir, results, violations, known, others
             known.append((kf, f))
         else:
             violations.append(f)
-        break  # one reproduced violation is enough; Miri is slow
     return total, time.time() - t0
 
 
@@ -1537,7 +1602,8 @@ def replay(pid, path):
         print("OK replay: the Miri memory pass of seed %d is clean on this tree" % j["miri_seed"])
         return 0
     if j.get("kind") == "miri":
-        rc, out = miri_run(j["base_seed"], j["workloads"], j["table"], j["miri_seed"], j["miri_seed"] + 1, j["preemption_rate"])
+        rc, out = miri_run(j["base_seed"], j["workloads"], j["table"], j["miri_seed"], j["miri_seed"] + 1, j["preemption_rate"],
+                           j["workload_index"] if j.get("explicit_index") else None)
         if rc != 0:
             sig = j["violation"]["signature"]
             if pid not in j["violation"]["properties"]:
